@@ -6,6 +6,7 @@
 #include <stddef.h>
 #include <stdint.h>
 #include <algorithm>
+#include <cmath>
 #include <memory>
 #include <vector>
 
@@ -120,6 +121,28 @@ template <class T>
 size_t BucketBinarySearch(T value, const std::vector<double> &boundaries)
 {
   auto low = std::lower_bound(boundaries.begin(), boundaries.end(), value);
+  return low - boundaries.begin();
+}
+
+// Exact "boundary < value" for an integer measurement. Converting a 64-bit integer to double
+// rounds above 2^53, which could move a value across the boundary it is next to.
+inline bool HistogramBoundaryLessThan(double boundary, int64_t value) noexcept
+{
+  if (!(boundary < 9223372036854775808.0))  // boundary >= 2^63 (or not a number)
+  {
+    return false;
+  }
+  if (boundary < -9223372036854775808.0)
+  {
+    return true;
+  }
+  return static_cast<int64_t>(std::floor(boundary)) < value;
+}
+
+inline size_t BucketBinarySearch(int64_t value, const std::vector<double> &boundaries)
+{
+  auto low =
+      std::lower_bound(boundaries.begin(), boundaries.end(), value, HistogramBoundaryLessThan);
   return low - boundaries.begin();
 }
 
